@@ -9,7 +9,7 @@ CONSTANTS
   UOff = 10
   TraceFile = "trace.ndjson"
   Checked = {"upd", "vp", "slot", "active", "pending", "subs", "nsub", "mempool", "lastPoll"}
-  Owned = {"Poll", "Bcast", "Block", "TxResult"}
+  Owned = {"Poll", "PollFail", "Bcast", "Block", "TxResult"}
 SPECIFICATION TraceSpec
 INVARIANTS TInv TCalmKept
 PROPERTIES TRelease
